@@ -104,5 +104,4 @@ theorem uintLitFull_ok (n : Nat) (r : List Char) (e : Bool) (hn : n < 2 ^ 64) (h
   rw [por_right hhex, por_right hoct]
   exact hdec
 
-#print axioms uintLitFull_ok
 end P.Peg
